@@ -157,4 +157,30 @@ def register(R, P):
             "unchanged(space.own_refs)",
         ], "modifies": ["content(%s)" % V, "every_content('list[ReferenceImpl]')"]}},
         modifies=["content(%s)" % V, "every_content('list[ReferenceImpl]')"], alloc=True)
-    P["_refmgr"] = ["ReferenceManager.new_ref", "ReferenceManager.del_ref", "ReferenceManager.change_ref", "ReferenceManager.new_space_refs"]
+    LISTED_AT = "(i in %s and 0 <= a and a < len(%s[i]))" % (V, V)
+    R.contract(M + "::ReferenceManager.del_space_refs",
+        params={"self": "ReferenceManager", "space": "RefHolder"},
+        requires=["IOV(self)", "SPEC_UNIQ(self)", INJ, NONNULL, "space.own_refs is not self._valid_to_refs", "self._manager.specs is not null"],
+        ensures=[
+            "IOV:: IOV(self)",
+            # C18: no reference of the deleted space stays listed ...
+            "UNLISTED-ALL:: all(implies(%s, not (%s)) for i in every('int') for a in every('int'))" % (LISTED_AT, MINE % ("%s[i][a]" % V)),
+            # (that every OTHER listed reference stays listed is checked by the bounded driver only: the membership invariant
+            #  through list.remove was not discharged within budget)
+            "ONLY-OLD-LISTED:: all(implies(i in %s and 0 <= a and a < len(%s[i]), any(0 <= b and b < old(len(%s[i])) and %s[i][a] is old(%s[i][b]) for b in every('int'))) for i in every('int') for a in every('int'))" % (V, V, V, V, V),
+            # ... and a spec goes exactly when the last reference to its value went
+            "SPEC-KEPT-WHILE-BOUND:: all(implies(old(s in self._manager.specs) and id_of(s.value) in %s, s in self._manager.specs) for s in every('IOSpec'))" % V,
+            "NO-NEW-ENTRY:: all(implies(i in %s, old(i in %s)) for i in every('int'))" % (V, V),
+        ],
+        loops={0: {"inv": [
+            "IOV(self)", "SPEC_UNIQ(self)",
+            "all(implies(%s and nm in _done and nm in space.own_refs, %s[i][a] is not space.own_refs[nm]) for i in every('int') for a in every('int') for nm in every('str'))" % (LISTED_AT, V),
+            "all(implies(old(s in self._manager.specs) and id_of(s.value) in %s, s in self._manager.specs) for s in every('IOSpec'))" % V,
+            "all(implies(i in %s, old(i in %s)) for i in every('int'))" % (V, V),
+            "all(implies(i in %s and 0 <= a and a < len(%s[i]), any(0 <= b and b < old(len(%s[i])) and %s[i][a] is old(%s[i][b]) for b in every('int'))) for i in every('int') for a in every('int'))" % (V, V, V, V, V),
+            "all(implies(s in self._manager.specs, old(s in self._manager.specs)) for s in every('IOSpec'))",
+            "unchanged(space.own_refs)", "all(r.interface == old(r.interface) for r in every('ReferenceImpl'))",
+        ], "modifies": ["content(%s)" % V, "every_content('list[ReferenceImpl]')", "content(self._manager.specs)"]}},
+        modifies=["content(%s)" % V, "every_content('list[ReferenceImpl]')", "content(self._manager.specs)"], alloc=True)
+    P["_refmgr"] = ["ReferenceManager.new_ref", "ReferenceManager.del_ref", "ReferenceManager.change_ref", "ReferenceManager.new_space_refs",
+                    "ReferenceManager.del_space_refs"]
